@@ -80,16 +80,16 @@ def comparable (fs : List (Bytes × Bytes)) : Bool :=
     (fs.filter (fun kv => Spec.Resp.lowerAll kv.1 == n.toUTF8.toList)).length ≤ 1) &&
   fs.all (fun kv => !kv.2.isEmpty || !(["content-type", "content-encoding", "server"].map (·.toUTF8.toList)).contains (Spec.Resp.lowerAll kv.1))
 
-def specCheck (e : End) (maxBody : Nat) (s : Bytes) (impl : List String) : Bool × String :=
+def specCheck (skip : Bool) (e : End) (maxBody : Nat) (s : Bytes) (impl : List String) : Bool × String :=
   match specResponse e s with
   | none => (true, "not-wellformed")
   | some (st, fs, body) =>
     if !comparable fs then (true, "not-comparable")
-    else if maxBody > 0 ∧ body.length > maxBody then (impl == ["err:toolarge"], "over-limit must be refused")
+    else if !skip ∧ maxBody > 0 ∧ body.length > maxBody then (impl == ["err:toolarge"], "over-limit must be refused")
     else match implView impl with
       | none => (false, "conforming response refused: " ++ (impl.headD ""))
       | some (st', fs', body') =>
-        (st == st' && body == body' && H1Spec.canonFields fs == H1Spec.canonFields fs', "status, fields and body as sent")
+        (st == st' && (if skip then body'.isEmpty else body == body') && H1Spec.canonFields fs == H1Spec.canonFields fs', "status, fields and body as sent")
 
 /-! ### request writer -/
 
@@ -214,11 +214,12 @@ def handle : Handler
   | ["respread", flags, maxBody, endK, stream, _cuts], impl => do
     let s ← hx stream
     let e := if endK == "stall" then End.stall else End.eof
-    let (sok, snote) := specCheck e maxBody.toNat! s impl
+    let skip := flags.contains 'h'
+    let (sok, snote) := specCheck skip e maxBody.toNat! s impl
     -- known finding: a huge declared chunk size makes the reader allocate (and panic) before any data arrived
     if impl == ["PANIC"] && hasHugeChunk s then
       return { out := impl, spec := false, cls := "huge-chunk-size-alloc", specNote := "reader panicked allocating a peer-declared chunk size", tag := "respread:hugechunk" }
-    match readResponse (flags.contains 'n') maxBody.toNat! e s with
+    match readResponseSkip skip (flags.contains 'n') maxBody.toNat! e s with
     | .error x => pure { out := [errTok x], spec := sok, specNote := snote, tag := "respread:" ++ errTok x ++ (if endK == "stall" then "S" else "E") }
     | .ok r =>
       let hd := r.head
@@ -229,7 +230,7 @@ def handle : Handler
                     ++ [toString r.trailers.length] ++ r.trailers.flatMap (fun kv => [encHex kv.1, encHex kv.2])
                     ++ [encHex r.body, toString r.rest.length],
              spec := sok, specNote := snote,
-             tag := (if snote.startsWith "status" then "wf:" else "") ++ "respread:ok:" ++ toString (if hd.cl < 0 then hd.cl else 0) ++ sizeClass r.body.length ++ boolTok hd.connClose ++
+             tag := (if snote.startsWith "status" then "wf:" else "") ++ (if skip then "head:" else "") ++ "respread:ok:" ++ toString (if hd.cl < 0 then hd.cl else 0) ++ sizeClass r.body.length ++ boolTok hd.connClose ++
                     boolTok (!r.trailers.isEmpty) ++ boolTok (mustSkipCL hd.status) ++ sizeClass hd.h.length }
   | "reqwrite" :: _proxy :: script, impl => reqWriteHandle script impl
   | _, _ => none
